@@ -462,11 +462,27 @@ def main():
     cases = json.load(sys.stdin)
     res = []
     import time
+    import signal
+
+    class CaseTimeout(BaseException):
+        pass
+
+    def on_alarm(signum, frame):
+        raise CaseTimeout()
+    signal.signal(signal.SIGVTALRM, on_alarm)
     for c in cases:
         t0 = time.process_time()
+        # bound the CPU time sympy may spend on one case (repeating timer: Lcapy has bare `except:` clauses)
+        signal.setitimer(signal.ITIMER_VIRTUAL, float(c.get('cpu_limit', 30)), 1.0)
         try:
-            res.append(run(c))
+            try:
+                res.append(run(c))
+            finally:
+                signal.setitimer(signal.ITIMER_VIRTUAL, 0)
             res[-1]['secs'] = round(time.process_time() - t0, 2)
+        except CaseTimeout:
+            signal.setitimer(signal.ITIMER_VIRTUAL, 0)
+            res.append({'timeout': round(time.process_time() - t0, 1)})
         except Exception as e:
             import traceback
             res.append({'error': type(e).__name__ + ': ' + str(e)[:300], 'tb': traceback.format_exc()[-600:]})
